@@ -809,8 +809,25 @@ void KMeansppCenters(matrix *m,
     /* Step 3 Calculate the square of distances and store in
     * a vector and in a sum (dist)
     */
+    A = 0.f;
     for(i = 0; i < D->size; i++){
       D_square->data[i] = square(D->data[i]);
+      A += D_square->data[i];
+    }
+
+    if(A == 0.f){
+      /* Every point coincides with an already selected center (fewer
+       * distinct points than centers): no distance-weighted draw can ever
+       * succeed, so take the first point not selected yet.
+       */
+      for(i = 0; i < m->row; i++){
+        if(UIVectorHasValue(selections, i) == 1){
+          UIVectorAppend(selections, i);
+          break;
+        }
+      }
+      q--;
+      continue;
     }
     /* Step 4 */
     A = 0.f;
